@@ -61,9 +61,25 @@ type Contract struct {
 	Trusted            string
 	Nilable            bool     // receiver may be nil
 	Opaque             []string // interface methods treated as unknown code in this function (no devirtualisation)
-	UnreachableReturns int      // returns that are expected to be unreachable under the contract
+	GhostVars          []GhostVar
+	AtCalls            []AtCall
+	UnreachableReturns int // returns that are expected to be unreachable under the contract
 	Line               int
 	Lemma              bool
+}
+
+type GhostVar struct {
+	Name, Sort string
+	Init       *Spec
+}
+
+// AtCall: ghost update performed right after the n-th call (source order) of a callee whose name ends with Callee
+type AtCall struct {
+	Callee string
+	N      int
+	Var    string
+	Expr   *Spec
+	Line   int
 }
 
 type PureDef struct {
@@ -90,6 +106,8 @@ type GhostField struct{ Type, Field, Sort string }
 
 var reClause = regexp.MustCompile(`^(requires|ensures|modifies|decreases|trusted|nilable|hint|assume|preserves|unreachable-returns|opaque)(\[[A-Z0-9,]+\])?\s*(.*)$`)
 var reLoop = regexp.MustCompile(`^loop\s+(\d+)\s+(invariant|decreases|modifies|hint)(\[[A-Z0-9,]+\])?\s+(.*)$`)
+var reGhostVar = regexp.MustCompile(`^ghost\s+var\s+([A-Za-z_][A-Za-z0-9_]*)\s+(int|bool)\s*=\s*(.*)$`)
+var reAtCall = regexp.MustCompile(`^at\s+call\s+([A-Za-z0-9_./()*]+)#(\d+)\s+ghost\s+([A-Za-z_][A-Za-z0-9_]*)\s*:=\s*(.*)$`)
 var rePure = regexp.MustCompile(`^(?:pure|arith)\s+([A-Za-z_][A-Za-z0-9_]*)\s*\(([^)]*)\)\s*:\s*([A-Za-z0-9_\[\]\*\.]+)\s*=\s*(.*)$`)
 var reGhost = regexp.MustCompile(`^ghost\s+field\s+([A-Za-z_][A-Za-z0-9_]*)\.([A-Za-z_][A-Za-z0-9_]*)\s*:\s*(.*)$`)
 
@@ -207,6 +225,23 @@ func parseContractFile(path string) (*ContractFile, error) {
 		default:
 			if cur == nil {
 				return nil, fail(fmt.Errorf("clause outside func"))
+			}
+			if m := reGhostVar.FindStringSubmatch(t); m != nil {
+				e, err := parseSpec(m[3])
+				if err != nil {
+					return nil, fail(err)
+				}
+				cur.GhostVars = append(cur.GhostVars, GhostVar{m[1], ghostSortName(m[2]), e})
+				continue
+			}
+			if m := reAtCall.FindStringSubmatch(t); m != nil {
+				n, _ := strconv.Atoi(m[2])
+				e, err := parseSpec(m[4])
+				if err != nil {
+					return nil, fail(err)
+				}
+				cur.AtCalls = append(cur.AtCalls, AtCall{m[1], n, m[3], e, l.line})
+				continue
 			}
 			if m := reLoop.FindStringSubmatch(t); m != nil {
 				n, _ := strconv.Atoi(m[1])
@@ -651,4 +686,11 @@ func splitConj(e *Spec) []*Spec {
 		}
 	}
 	return []*Spec{e}
+}
+
+func ghostSortName(s string) string {
+	if s == "bool" {
+		return "Bool"
+	}
+	return "Int"
 }
